@@ -3,7 +3,7 @@ modified; integrators return fresh arrays.  (spec/Memo.tla, spec/Trace_Memo.tla,
 
 Behaviour replay, spec -> code:
   1. TLC model-checks Memo.tla (every history of <= 3 calls over the memo-relevant bases; thorough: also <= 4 calls
-     over the core bases and every 2-call history of the full alphabet in every layout) and refutes the ten
+     over the core bases and every 2-call history of the full alphabet in every layout) and refutes the eleven
      defective design variants (MemoMC_bug_*.cfg): the refinement Memo => MemoFree is not vacuous.
   2. Histories are taken from TLC:
        pair   - the state graph of all 2-call histories (-dump dot,actionlabels) gives the (writer, reader, table)
@@ -28,7 +28,8 @@ WORKER = os.path.join(os.path.dirname(os.path.abspath(__file__)), 'c20_worker.py
 BUG_CFGS = {'projkey': 'ResultIndependentOfHistory', 'dbetakey': 'ResultIndependentOfHistory', 'partkey': 'ResultIndependentOfHistory',
             'raw45': 'LayoutIndependent', 'rawxx': 'LayoutIndependent', 'godaddr': 'ResultIndependentOfHistory',
             'demes': 'ResultIndependentOfHistory', 'perturb': 'ArgumentsUnchanged',
-            'hashorder': 'ResultIndependentOfHashSeed', 'sfslist': 'ArgumentsUnchanged'}
+            'hashorder': 'ResultIndependentOfHashSeed', 'sfslist': 'ArgumentsUnchanged',
+            'kernelstate': 'ResultIndependentOfHistory'}
 TABLES = ['proj', 'dbeta', 'part', 'precalc', 'multinom', 'bb', 'godambe']
 
 
@@ -249,6 +250,19 @@ def binding_demo(groups, verdicts, limit=120):
 
 
 # ------------------------------------------------------------------------------------------------ coverage measures
+_KP = {'one_pop': (1, 10), 'two_pops': (2, 8), 'three_pops': (3, 6), 'four_pops': (4, 5), 'five_pops': (5, 4)}
+
+
+def _kernel_grid(base):
+    """(kernel family, grid size, grid kind) of a call that hands its grid to a compiled kernel (KernelGrid in Memo.tla)."""
+    for f, (P, n) in _KP.items():
+        if base.startswith(f + '_'):
+            rest = base[len(f) + 1:]
+            if rest in ('td', 'td_B') or (P >= 4 and rest == 'c'):
+                return (P, n, 'B' if rest.endswith('_B') else 'A')
+    return None
+
+
 def observed_pairs(groups):
     """(writer base, reader base, table) triples actually exercised: a lookup that hit a key inserted by an earlier call."""
     pairs = set()
@@ -263,6 +277,13 @@ def observed_pairs(groups):
             for t in TABLES:
                 for k in r['tab'][t]['new']:
                     owner.setdefault((t, json.dumps(k)), r['base'])
+            # compiled kernels: a kernel family handed a grid of the size, but not the spacings, of its previous call
+            kg = _kernel_grid(r['base'])
+            if kg:
+                last = owner.get(('kernel', kg[0]))
+                if last and last[1] == kg[1] and last[2] != kg[2]:
+                    pairs.add((last[0], r['base'], 'kernel'))
+                owner[('kernel', kg[0])] = (r['base'], kg[1], kg[2])
             # the demes event log: Demes.output re-reads the log a previous Demes.output call of the same model left
             if r['base'].startswith('demes_output_again') and owner.get('demeslog'):
                 pairs.add((owner['demeslog'], r['base'], 'demeslog'))
